@@ -118,7 +118,8 @@ def collisions(draw):
         'role': draw(st.sampled_from(['parameter', 'parameter-assigned',
                                       'local', 'loop-index', 'cycle-index',
                                       'as-variable',
-                                      'parameter-given-nothing'])),
+                                      'parameter-given-nothing',
+                                      'unassigned-local-of-callee'])),
         'outer_value': draw(st.integers(50, 99)),
         'argument': draw(st.integers(1, 9)),
         'delta': draw(st.integers(1, 5)),
@@ -143,6 +144,15 @@ def collision_script(case):
             'begin assign {0} {1} println {0} return {0} end'.format(
                 name, delta)
         inside = [delta, delta]
+    elif role == 'unassigned-local-of-callee':
+        # q_g's local of that name is assigned on a path not taken: it has
+        # no value, whatever the caller's parameter of the same name holds
+        routine = 'define q_g begin if {{0}} begin assign {0} 1 end ' \
+            'println {0} end define q_f with {0} begin q_g println {0} ' \
+            'return {0} end'.format(name)
+        # (with a global variable of that name, q_g reads the global)
+        inside = [outer if case['outer'] == 'variable-before' else None,
+                  arg, arg]
     elif role == 'local':
         routine = 'define q_f with q_p begin assign {0} {{q_p + {1}}} ' \
             'println {0} return {{{0} + 1}} end'.format(name, delta)
